@@ -31,6 +31,9 @@ claimed = {
  "C09": dict(
    text="For the bgv evaluator's binary operations (Add, Sub, Mul, MulRelin, MulRelinThenAdd; equal and different scales): every operand is compared coefficient-wise (atoms) before and after the call, the operation is repeated with the output aliased to the first and to the second operand and into an output object that previously held a larger-degree ciphertext, and the results must be identical polynomials / decrypt identically; big.Int scalar operands must be unchanged.",
    ref="DESIGN.md §6-C09", technique="SSA symbolic execution in the algebraic slot model (exact polynomial identity of outputs across aliasing patterns) + SMT (LIA)"),
+ "C11": dict(
+   text="Word level (BV): Galois-element arithmetic of rlwe.Parameters (GaloisElement group law, periodicity in the generator order, ModInvGaloisElement, SolveDiscreteLogGaloisElement) for all 64-bit rotation indices, through the real ModExp/ModExpPow2 loops (if-converted). Algebraic level (in the C04 automorphism harness, shared code): Automorphism / AutomorphismHoisted / AutomorphismHoistedLazy decrypt to sigma_g of the plaintext with the slot permutation computed from the definition. Inner sums, replication and the scheme-level rotation wrappers are not yet covered.",
+   ref="DESIGN.md §6-C11", technique="SSA symbolic execution + SMT (BV) on the Galois arithmetic; algebraic slot model for the induced ciphertext automorphisms"),
  "C19": dict(
    text="Symbolic execution of rlwe.CheckModuli with a symbolic candidate modulus and an arbitrary primality oracle (solver characterises every accepted size), plus boundary witnesses (real primes) checked against the 61-bit size the arithmetic layer supports (8q<=2^64, from the C01 stage invariants).",
    ref="DESIGN.md §6-C19", technique="SSA symbolic execution + SMT (BV) over the acceptance predicates; concrete boundary witnesses replayed natively"),
